@@ -72,6 +72,9 @@ def checked(solver, timeout_ms):
 class Check:
     def __init__(self, pid, args, functions_planned=(), sub=False):
         self.sub = sub
+        if not sub:
+            global LAST_CHECK
+            LAST_CHECK = self
         self.pending = []
         self.expected_exc_paths = {}
         self.pid = pid
@@ -210,7 +213,7 @@ class Check:
         path = os.path.join(ROOT, 'replays', '%s-%s.json' % (self.pid, h))
         os.makedirs(os.path.dirname(path), exist_ok=True)
         with open(path, 'w') as f:
-            json.dump(dict(property=self.pid, key=key, what=what, replay=replay), f, indent=1,
+            json.dump(dict(property=self.pid, key=key, what=what, tier=self.tier, replay=replay), f, indent=1,
                       default=str)
         self.violations.append(dict(key=key, what=what, replay=path))
         print('VIOLATION property=%s replay=%s' % (self.pid, path), flush=True)
@@ -299,9 +302,10 @@ class Check:
             wall_s=round(time.time() - self.t0, 2),
             violations=len(self.violations),
         )
-        os.makedirs(os.path.join(ROOT, 'evidence'), exist_ok=True)
-        with open(os.path.join(ROOT, 'evidence', self.pid + '.json'), 'w') as f:
-            json.dump(ev, f, indent=1, default=str)
+        if not getattr(self.args, 'replay', None):          # a replay run does not rewrite the evidence of the check
+            os.makedirs(os.path.join(ROOT, 'evidence'), exist_ok=True)
+            with open(os.path.join(ROOT, 'evidence', self.pid + '.json'), 'w') as f:
+                json.dump(ev, f, indent=1, default=str)
         print('%s tier=%s obligations=%d %s paths=%d queries=%d solver=%.1fs wall=%.1fs'
               % (self.pid, self.tier, n_obl, counts, self.paths, self.queries, self.solver_s,
                  time.time() - self.t0), flush=True)
@@ -314,6 +318,7 @@ class Check:
 
 
 SHADOW_VALIDATION = None
+LAST_CHECK = None
 
 
 def validate_shadow():
@@ -353,10 +358,29 @@ def validate_shadow():
 def run_check(pid, main):
     """Wrap a check's main(): harness errors give exit code 2 and no verdict."""
     args = parse_args(pid)
+    want = None
+    if args.replay:
+        # replay = derive the counterexample again on the CURRENT tree: the check is re-run in the tier that found it and
+        # the recorded violation counts as reproduced iff a violation with the same key (call site + input class) is
+        # found and confirmed on the real code again
+        with open(args.replay) as f:
+            want = json.load(f)
+        if want.get('property') != pid:
+            print('HARNESS-ERROR: %s is a replay file of %s' % (args.replay, want.get('property')))
+            sys.exit(EXIT_HARNESS)
+        args.tier = want.get('tier', args.tier)
+        print('replaying %s: %s' % (want['key'], want['what'][:300]), flush=True)
     try:
-        if not args.replay:
-            validate_shadow()
+        validate_shadow()
         rc = main(args)
+        if want is not None and rc != EXIT_HARNESS:
+            keys = {v['key'] for v in LAST_CHECK.violations} | {k['key'] for k in LAST_CHECK.known if any(k['what'] in h for h in LAST_CHECK.known_hits)}
+            if want['key'] in keys:
+                print('REPRODUCED key=%s' % want['key'])
+                rc = EXIT_VIOLATION
+            else:
+                print('NOT REPRODUCED on the current tree: key=%s' % want['key'])
+                rc = EXIT_OK
     except symx.HarnessError as e:
         traceback.print_exc()
         print('HARNESS-ERROR: %s' % e)
